@@ -52,7 +52,7 @@ var schemaApplSlots = [][]applForm{
 
 func (f applForm) arity() int {
 	switch f.shape {
-	case "list2", "propAB":
+	case "list2", "propAB", "propAB-ro":
 		return 2
 	}
 	return 1
@@ -84,6 +84,21 @@ func DefaultAlphabetWith(extraSlots [][]kwOpt, extraOpts []kwOpt) Alphabet {
 	}
 	atoms = append(atoms, extraSlots...)
 	return Alphabet{atoms, schemaApplSlots}
+}
+
+// withAppls returns the alphabet with extra forms appended to the applicator slot of the same keyword.
+func (al Alphabet) withAppls(extra []applForm) Alphabet {
+	var appls [][]applForm
+	for _, slot := range al.Appls {
+		ns := append([]applForm{}, slot...)
+		for _, e := range extra {
+			if e.key == slot[0].key {
+				ns = append(ns, e)
+			}
+		}
+		appls = append(appls, ns)
+	}
+	return Alphabet{al.Atoms, appls}
 }
 
 // Gen enumerates every schema with at most *budget keyword instances (an applicator costs one
@@ -148,6 +163,19 @@ func (al Alphabet) Gen(x *explore.X, budget *int, depth int) map[string]any {
 			s[f.key] = map[string]any{"b": sub()}
 		case "propAB":
 			a := sub()
+			b := sub()
+			s[f.key] = map[string]any{"a": a, "b": b}
+		case "propA-ro":
+			a := sub()
+			a["readOnly"] = true
+			s[f.key] = map[string]any{"a": a}
+		case "propA-wo":
+			a := sub()
+			a["writeOnly"] = true
+			s[f.key] = map[string]any{"a": a}
+		case "propAB-ro":
+			a := sub()
+			a["readOnly"] = true
 			b := sub()
 			s[f.key] = map[string]any{"a": a, "b": b}
 		}
